@@ -42,7 +42,11 @@ def submit_closures(fx):
         elif key.startswith("dyn core::ops::function::FnMut<(&mut core::task::wake::Context,)>") and "[Output=core::task::poll::Poll<core::option::Option<" + PAYLOAD + "<" in key:
             kind = "receive"
         if kind:
+            seen = set()
             for s in ent["sources"]:
+                if s["def"] in seen:  # one closure may be listed once per instantiation of its enclosing generic function
+                    continue
+                seen.add(s["def"])
                 f = fx.fn(s["def"])
                 out.append((kind, f, key))
     return out
